@@ -105,8 +105,17 @@ func TestC01(t *testing.T) {
 // snapshots and forces collection. The oracle stays exact because a snapshot's
 // content is immutable.
 func TestC01Readers(t *testing.T) {
-	st := ev.Get("C01", "TestC01Readers")
-	rapid.Check(t, func(t *rapid.T) {
+	rapid.Check(t, readersProp(ev.Get("C01", "TestC01Readers"), false))
+}
+
+// C10 with concurrent writers and collection during the visit: the same free-running
+// harness with every reader using Visitor (drawn shard counts and concurrency).
+func TestC10Conc(t *testing.T) {
+	rapid.Check(t, readersProp(ev.Get("C10", "TestC10Conc"), true))
+}
+
+func readersProp(st *ev.Stats, visitorOnly bool) func(t *rapid.T) {
+	return func(t *rapid.T) {
 		sched.SeedRand(t)
 		cfg := genCfg(t, -1, false)
 		w := NewWorld(t, cfg, st)
@@ -154,7 +163,9 @@ func TestC01Readers(t *testing.T) {
 			w.pinned[i]++
 			held[r] = i
 			rate := []int{0, 1, 3}[rapid.IntRange(0, 2).Draw(t, "rate")]
-			useVisitor := rapid.IntRange(0, 3).Draw(t, "visitor") == 0
+			useVisitor := visitorOnly || rapid.IntRange(0, 3).Draw(t, "visitor") == 0
+			vshards := rapid.IntRange(1, 12).Draw(t, "vshards")
+			vconc := rapid.IntRange(1, 4).Draw(t, "vconc")
 			rec := w.snaps[i]
 			wg.Add(1)
 			go func(r int, rec *snapRec) {
@@ -170,8 +181,8 @@ func TestC01Readers(t *testing.T) {
 						return
 					}
 					var got []string
-					if useVisitor && n%2 == 1 {
-						parts, err := VisitShards(w.db, rec.snap, 1, 1, nil)
+					if useVisitor && (visitorOnly || n%2 == 1) {
+						parts, err := VisitShards(w.db, rec.snap, vshards, vconc, nil)
 						if err != nil {
 							errs[r] = "visitor error " + err.Error()
 							return
@@ -181,7 +192,7 @@ func TestC01Readers(t *testing.T) {
 						got, _ = w.ScanSnap(rec.snap, rate)
 					}
 					if !equalSeq(got, rec.content) {
-						errs[r] = fmt.Sprintf("concurrent scan #%d of snapshot sn=%d (refresh %d, visitor=%v) differs\n%s", n, rec.sn, rate, useVisitor && n%2 == 1, diffSeq(got, rec.content))
+						errs[r] = fmt.Sprintf("concurrent scan #%d of snapshot sn=%d (refresh %d, visitor=%v) differs\n%s", n, rec.sn, rate, useVisitor && (visitorOnly || n%2 == 1), diffSeq(got, rec.content))
 						return
 					}
 					atomic.AddInt64(&scans[r], 1)
@@ -228,5 +239,5 @@ func TestC01Readers(t *testing.T) {
 		}
 		st.Case(w.Desc()+fmt.Sprintf(" readers=%v", held), nt, fmt.Sprintf("readers-%d", nr))
 		st.AddExtra("concurrent-scans", total)
-	})
+	}
 }
